@@ -375,7 +375,9 @@ impl<'a> DwarfUnwinder<'a> {
         )?
         .ok_or(UnwindNoContext)?;
 
-        for _ in 0..frame_num {
+        // `unwind_ucx` built for frame N already holds the registers restored for frame N+1 (its caller),
+        // so frame `frame_num` needs `frame_num - 1` further steps, not `frame_num`.
+        for _ in 1..frame_num {
             let ret_addr = unwind_ucx.return_address().ok_or(UnwindTooDeepFrame)?;
 
             ecx = ExplorationContext::new(
@@ -390,7 +392,12 @@ impl<'a> DwarfUnwinder<'a> {
             unwind_ucx = UnwindContext::next(unwind_ucx, &ecx)?.ok_or(UnwindNoContext)?;
         }
 
-        let unwind_registers = unwind_ucx.registers();
+        let mut unwind_registers = unwind_ucx.registers();
+        // the stack pointer of a frame is the CFA of the frame below it (see `UnwindContext::next`)
+        let sp_register = Register::Rsp
+            .dwarf_register()
+            .expect("stack pointer register must map to dwarf register");
+        unwind_registers.update(sp_register, unwind_ucx.cfa.into());
         registers.update_from(&unwind_registers);
 
         Ok(())
